@@ -1,6 +1,7 @@
 #![allow(non_camel_case_types, non_snake_case, dead_code)]
 #[tarpc::service]
-pub trait Rej27 {
-    async fn new(a0: i32, a1: i32) -> String;
+pub trait Rej76 {
+    async fn ab(a0: i32);
+    async fn a1(ctx: tarpc::context::Context);
 }
 fn main() {}
